@@ -314,6 +314,33 @@ func c04Case(w *core.Worker, i int) {
 		}
 		checkBuckets("partition", q, buckets)
 	}
+	// 2b. two analytic functions over the same partitioning, one of them ordering the rows inside OVER:
+	// the numbering must be a numbering of exactly the partitions the other function lists
+	q = "SELECT id, ROW_NUMBER() OVER (PARTITION BY " + keyList + " ORDER BY v DESC, id DESC) AS rn, LISTAGG(id, ' ') OVER (PARTITION BY " + keyList + ") AS ids FROM t"
+	if v := run(q); v != nil && n > 0 {
+		rns := map[string][]int{}
+		var buckets [][]int
+		for _, row := range v.Rows {
+			ids := parseIDs(row[2])
+			sort.Ints(ids)
+			key := fmt.Sprint(ids)
+			if _, seen := rns[key]; !seen {
+				buckets = append(buckets, ids)
+			}
+			x, _ := strconv.Atoi(row[1].S)
+			rns[key] = append(rns[key], x)
+		}
+		checkBuckets("partition+order", q, buckets)
+		for key, xs := range rns {
+			sort.Ints(xs)
+			for j, x := range xs {
+				if x != j+1 || len(xs) != len(strings.Fields(strings.Trim(key, "[]"))) {
+					viol("partition+order:numbering", q, fmt.Sprintf("ROW_NUMBER over the partition %s takes the values %v", key, xs))
+					break
+				}
+			}
+		}
+	}
 	// 3. DISTINCT: one output row per class
 	q = "SELECT DISTINCT " + keyList + " FROM t"
 	if v := run(q); v != nil {
